@@ -28,7 +28,7 @@ Trace == ndJsonDeserialize("trace.ndjson")
 NR == 3
 
 VARIABLES l, ci, rs, snaps, skip, bad, stats,
-          disp      \* per runner: t0 (ms) of the Next call that started the pending command
+          disp      \* per runner: t0 (microseconds) of the Next call that started the pending command
 vars == <<l, ci, rs, snaps, skip, bad, stats, disp>>
 
 P == Cases[ci]
@@ -88,8 +88,9 @@ StepNext(e) ==
       \* <<wait n>> reports completion no earlier than n seconds after it started (C10):
       \* the call that resumes ended at t1, the call that dispatched began at disp[r]
       isWaitDone == pre.cmd.st = "run" /\ pre.cmd.arg.t = "n" /\ e.in.done
-      early == \/ isWaitDone /\ (e.t1 - disp[e.r]) * pre.cmd.arg.d < pre.cmd.arg.n * 1000
-               \/ doneOnReturn /\ (e.t1 - e.t0) * t0.cmd.arg.d < t0.cmd.arg.n * 1000
+      \* (elapsed times of 4 s and more are never early for the waits used; the bound keeps products below 2^31)
+      early == \/ isWaitDone /\ e.t1 - disp[e.r] < 4000000 /\ (e.t1 - disp[e.r]) * pre.cmd.arg.d < pre.cmd.arg.n * 1000000
+               \/ doneOnReturn /\ e.t1 - e.t0 < 4000000 /\ (e.t1 - e.t0) * t0.cmd.arg.d < t0.cmd.arg.n * 1000000
   IN IF t.out.k = "oos"
      THEN \* outside the modelled window: no verdict, except that a panic is never acceptable
           /\ skip' = TRUE /\ stats' = Bump("oos") /\ UNCHANGED <<rs, snaps>>
@@ -98,8 +99,8 @@ StepNext(e) ==
      THEN /\ skip' = TRUE /\ stats' = Bump("checked")
           /\ bad' = LET w == IF doneOnReturn THEN t0.cmd.arg ELSE pre.cmd.arg IN
                     Report(e, "wait-too-early", <<"wait-too-early">>,
-                           [seconds |-> w, atLeastMs |-> (w.n * 1000) \div w.d],
-                           [elapsedMs |-> IF doneOnReturn THEN e.t1 - e.t0 ELSE e.t1 - disp[e.r]], pre)
+                           [seconds |-> w, atLeastMicros |-> (w.n * 1000000) \div w.d],
+                           [elapsedMicros |-> IF doneOnReturn THEN e.t1 - e.t0 ELSE e.t1 - disp[e.r]], pre)
           /\ UNCHANGED <<rs, snaps>>
      ELSE IF mism # <<>>
      THEN /\ skip' = TRUE /\ stats' = Bump("checked")
